@@ -575,6 +575,15 @@ class _Merger(object):
                         self.l.varargs, self.l.varkwargs,
                         self.l_unmatched_kwoargs, self.l.sources)
 
+        # parameters converted to positional-only above must leave the
+        # positional-or-keyword bucket, or the next step of an n-ary merge
+        # would treat them as keyword-passable again
+        converted = [p for p in self.pokargs if p.kind == p.POSITIONAL_ONLY]
+        if converted:
+            self.posargs.extend(converted)
+            self.pokargs = [
+                p for p in self.pokargs if p.kind != p.POSITIONAL_ONLY]
+
         if self.l_unmatched_kwoargs:
             self._merge_unmatched_kwoargs(
                 self.l_unmatched_kwoargs, self.r.varkwargs, self.l.sources)
